@@ -104,6 +104,16 @@ def rule_mask_shift(col, facts):
     col.floor(R, "write_exponent call sites", n2, 1)
 
 
+def _mentions_byte(x, value):
+    """Does a raw MIR rvalue / operand mention the u8 constant `value` (a direct store `bytes[i] = b'+'`, or the
+    byte wrapped on its way there: `Some(b'+')`, `let c = b'+'`)?"""
+    if isinstance(x, dict):
+        return x.get("v") == value and x.get("ty") == "u8"
+    if isinstance(x, (tuple, list)):
+        return any(_mentions_byte(y, value) for y in x)
+    return False
+
+
 def rule_flag_polarity(col, facts):
     """KEY-flags: sign and notation flags have the same meaning for the writer as for the parser."""
     R = "KEY-flags"
@@ -117,13 +127,24 @@ def rule_flag_polarity(col, facts):
             if not f.live(i):
                 continue
             for st in b["s"]:
-                if st[0] == "=" and st[1][1] and st[2][0] == "use" and st[2][1][0] == "k" and st[2][1][1].get("v") == 43:
+                if st[0] == "=" and _mentions_byte(st[2], 43):
                     plus.append((i, st))
         if fmt:
             col.check(R, "%s:plus-present" % getter, bool(plus), "no b'+' store although the format can require a sign", f.loc())
         for i, st in plus:
-            conds = path_conditions(f, i)
-            ok = any(strip_casts(e)[0] == "call" and last_seg(strip_casts(e)[1]) == getter and p is True for _d, e, p in conds)
+            # on every feasible path to the store the getter was found true (boolean locals such as
+            # `let explicit_plus = cfg!(..) && format.required_exponent_sign()` are read along the path)
+            from rules.core import bool_resolved_atoms, enum_paths
+            ok = True
+            seen_paths = 0
+            for _t, atoms0, env in enum_paths(f, 0, {i}, want_env=True):
+                atoms, feasible = bool_resolved_atoms(f, atoms0, env)
+                if not feasible:
+                    continue
+                seen_paths += 1
+                if not any(e[0] == "call" and last_seg(e[1]) == getter and p is True for e, p in atoms):
+                    ok = False
+            # (no feasible path: the store cannot be reached in this configuration - `cfg!(feature = "format") && ..`)
             col.check(R, "%s:plus-polarity" % getter, ok, "b'+' is written on a path where %s() was not tested true" % getter, f.loc(st[3]))
     # '-' for negative exponent under exp < 0
     for i, b in enumerate(wes.blocks):
@@ -134,28 +155,8 @@ def rule_flag_polarity(col, facts):
                 conds = path_conditions(wes, i)
                 ok = any(strip_casts(e)[0] == "bin" and strip_casts(e)[1] == "Lt" and strip_casts(strip_casts(e)[3]) == ("k", 0) and p is True for _d, e, p in conds)
                 col.check(R, "exponent-minus", ok, "b'-' written for the exponent without `exp < 0`", wes.loc(st[3]))
-    # notation: scientific writers only when !no_exponent_notation; always when required_exponent_notation
-    n = 0
-    for f in facts.all_fns():
-        if f.crate != "lexical_write_float":
-            continue
-        for bb, c, a, d, t in f.calls():
-            cn = callee_name(c)
-            if "write_float!" and "write_float" in f.macros(f.blocks[bb]["ts"]) and last_seg(cn).startswith("write_float_"):
-                sci = last_seg(cn).endswith("_scientific")
-                conds = path_conditions(f, bb)
-                no_exp = [p for _d, e, p in conds if strip_casts(e)[0] == "call" and last_seg(strip_casts(e)[1]) == "no_exponent_notation"]
-                n += 1
-                base = f.short.replace(WF, "")
-                if sci:
-                    col.check(R, "%s:scientific-under-!no_exponent_notation" % base, no_exp == [False], "scientific notation is written although no_exponent_notation() was not tested false", f.loc(f.blocks[bb]["ts"]))
-                else:
-                    # positional writers are reached either because notation is forbidden or not required
-                    alts = reach_alternatives(f, bb)
-                    req_true = any(any(strip_casts(e)[0] == "call" and last_seg(strip_casts(e)[1]) == "required_exponent_notation" and p is True for _d, e, p in alt)
-                                   and not any(strip_casts(e)[0] == "call" and last_seg(strip_casts(e)[1]) == "no_exponent_notation" and p is True for _d, e, p in alt) for alt in alts)
-                    col.check(R, "%s:%s-not-when-required" % (base, last_seg(cn)), not req_true, "positional notation can be written although required_exponent_notation() is true and notation is allowed", f.loc(f.blocks[bb]["ts"]))
-    col.floor(R, "notation dispatch sites", n, 3)
+    # (notation: scientific writers only when !no_exponent_notation, always when required_exponent_notation -
+    #  decided path by path by c14.rule_notation (CFG-notation), which run() applies to this property as well)
     # option getters used on both sides
     def getters(crate):
         out = set()
@@ -185,7 +186,7 @@ def rule_exponent_sign_paths(col, facts):
         if not f.live(i):
             continue
         for st in b["s"]:
-            if st[0] == "=" and st[1][1] and st[2][0] == "use" and st[2][1][0] == "k" and st[2][1][1].get("v") == 43:
+            if st[0] == "=" and _mentions_byte(st[2], 43):
                 plus.add(i)
     rets = {i for i, b in enumerate(f.blocks) if f.live(i) and b["t"]["k"] == "return"}
     n = 0
@@ -193,9 +194,16 @@ def rule_exponent_sign_paths(col, facts):
         neg = None
         req = None
         other = []
+        from rules.core import bool_resolved_atoms
+        atoms, feasible = bool_resolved_atoms(f, atoms, env)
+        if not feasible:
+            continue
         for e, p in atoms:
-            e = strip_casts(e)
             if e[0] == "bin" and e[1] == "Lt" and strip_casts(e[3]) == ("k", 0) and strip_casts(e[2])[0] == "arg":
+                neg = p
+            elif e[0] == "bin" and e[1] == "Ge" and strip_casts(e[3]) == ("k", 0) and strip_casts(e[2])[0] == "arg" and isinstance(p, bool):
+                neg = not p
+            elif e[0] == "call" and last_seg(e[1]) == "is_negative" and e[2] and strip_casts(e[2][0])[0] == "arg":
                 neg = p
             elif e[0] == "call" and last_seg(e[1]) == "required_exponent_sign":
                 req = p
@@ -216,6 +224,8 @@ def run(col, configs, tier):
         guarded(col, rule_mixed, facts)
         guarded(col, rule_mask_shift, facts)
         guarded(col, rule_flag_polarity, facts)
+        from rules import c14 as _c14
+        guarded(col, _c14.rule_notation, facts)
         guarded(col, rule_exponent_sign_paths, facts)
         from rules import extra as X2
         guarded_soft(col, X2.rule_trim_needs_fraction_flag, facts)
